@@ -53,10 +53,13 @@ def main():
             shutil.copy(demo, os.path.join(wt, 'zz_demo_seeded_test.go'))
             import re
             names = re.findall(r'^func (Test\w+)', open(demo).read(), re.M)
-            rc, o = sh(['go', 'test', '-vet=off', '-count=1', '-run', '^(' + '|'.join(names) + ')$', '.'], cwd=wt, timeout=900)
+            # a demonstration that says it needs the race detector is run under it
+            race = ['-race'] if 'go test -race' in open(demo).read() else []
+            denv = dict(ENV, CGO_ENABLED='1') if race else ENV
+            rc, o = sh(['go', 'test'] + race + ['-vet=off', '-count=1', '-run', '^(' + '|'.join(names) + ')$', '.'], cwd=wt, env=denv, timeout=900)
             print('demo with the change:', 'FAILS (as it should)' if rc != 0 else 'passes (NOT a valid demonstration)')
             sh(['git', 'checkout', '--', '.'], cwd=wt)  # undo the change, keep the (untracked) demo
-            rc2, o2 = sh(['go', 'test', '-vet=off', '-count=1', '-run', '^(' + '|'.join(names) + ')$', '.'], cwd=wt, timeout=900)
+            rc2, o2 = sh(['go', 'test'] + race + ['-vet=off', '-count=1', '-run', '^(' + '|'.join(names) + ')$', '.'], cwd=wt, env=denv, timeout=900)
             print('demo without the change:', 'passes (as it should)' if rc2 == 0 else 'FAILS ' + o2[-400:])
             os.remove(os.path.join(wt, 'zz_demo_seeded_test.go'))
             rc, o = sh(['git', 'apply', os.path.abspath(patch)], cwd=wt)
